@@ -187,6 +187,41 @@ def _splat_literal_dicts(tree: ast.AST) -> None:
                                 break
                         if done:
                             continue
+                    # the same dict splatted into several calls: only when its values are plain names / attributes / constants (nothing
+                    # is evaluated twice that could have an effect), all uses are `**d` in later simple statements of this block
+                    if isinstance(st, ast.Assign) and len(st.targets) == 1 and isinstance(st.targets[0], ast.Name) and isinstance(st.value, ast.Dict) and st.value.keys \
+                            and all(isinstance(q, ast.Constant) and isinstance(q.value, str) and q.value.isidentifier() for q in st.value.keys) and uses.get(st.targets[0].id, 0) > 2 \
+                            and all(isinstance(x, (ast.Name, ast.Attribute, ast.Constant, ast.Load)) for v in st.value.values for x in ast.walk(v)):
+                        import copy as _c
+                        d = st.targets[0].id
+                        mentioned = {n.id for v in st.value.values for n in ast.walk(v) if isinstance(n, ast.Name)}
+                        n_loads = sum(1 for n in ast.walk(fn) if isinstance(n, ast.Name) and n.id == d and isinstance(n.ctx, ast.Load))
+                        n_stores = sum(1 for n in ast.walk(fn) if isinstance(n, ast.Name) and n.id == d and isinstance(n.ctx, ast.Store))
+                        sites = []
+                        okm = n_stores == 1
+                        for j in range(k + 1, len(blk)):
+                            later = blk[j]
+                            cs = [c for c in ast.walk(later) if isinstance(c, ast.Call) and any(kw.arg is None and isinstance(kw.value, ast.Name) and kw.value.id == d for kw in c.keywords)]
+                            if cs and not isinstance(later, (ast.Assign, ast.Expr, ast.Return, ast.AnnAssign)):
+                                okm = False
+                            sites += cs
+                            if len(sites) == n_loads:
+                                break
+                            if any(isinstance(n, ast.Name) and isinstance(n.ctx, (ast.Store, ast.Del)) and (n.id in mentioned or n.id == d) for n in ast.walk(later)) or \
+                                    any(isinstance(n, ast.Attribute) and isinstance(n.ctx, (ast.Store, ast.Del)) for n in ast.walk(later)):
+                                okm = False
+                                break
+                        if okm and sites and len(sites) == n_loads:
+                            for c in sites:
+                                new_kw = []
+                                for kw in c.keywords:
+                                    if kw.arg is None and isinstance(kw.value, ast.Name) and kw.value.id == d:
+                                        new_kw += [ast.copy_location(ast.keyword(arg=q.value, value=_c.deepcopy(v)), kw.value) for q, v in zip(st.value.keys, st.value.values)]
+                                    else:
+                                        new_kw.append(kw)
+                                c.keywords = new_kw
+                            del blk[k]
+                            continue
                     k += 1
 
 
